@@ -685,9 +685,12 @@ func TestVerif_C34(t *testing.T) {
 				if base.harnessErr != "" {
 					c.T.Fatalf("C34 harness error on the default run of %+v: %s", sh, base.harnessErr)
 				}
+				c.Note(fmt.Sprintf("datagrams %s req=%d resp=%d hdr=%d", sh.Method, sh.Req.Size+sh.Req.Delta, sh.Resp.Size+sh.Resp.Delta, sh.Hdr), fmt.Sprint(base.count))
 				var sites []c34Fault
 				for dir := 0; dir < 2; dir++ {
-					for i := 0; i < base.count[dir]+1; i++ {
+					// one past the end, rounded up to a multiple of 4 so that all
+					// shards enumerate the same list even if a count wobbles by one
+					for i := 0; i < (base.count[dir]+4)/4*4; i++ {
 						for _, kd := range kinds {
 							sites = append(sites, c34Fault{Dir: dir, Index: i, Kind: kd})
 						}
